@@ -9,7 +9,7 @@ use crate::spec::EventSpec;
 
 pub const PATHS: &[&str] = &[
     ".a", ".b", ".a.b", ".a.c", ".arr", ".arr[0]", ".arr[1]", ".arr[-1]", ".arr[-3]", ".\"k k\"", ".o.p.q", ".", "%m", "%m.n",
-    "%arr[0]", ".arr[2].x", "%", ".\"a.b\"", ".o.p.q.r.s", ".arr[1].n[0]", "%m.\"x y\".z",
+    "%arr[0]", ".arr[2].x", "%", ".\"a.b\"", ".o.p.q.r.s", ".arr[1].n[0]", "%m.\"x y\".z", ".ab", ".a_b", ".a.\"0\"", "%a",
 ];
 
 const LITS: &[&str] = &["1", "\"s\"", "true", "null", "[1, 2]", "{\"b\": 1}", "{\"b\": {\"c\": 2}}", "[]", "{}", "2.5"];
@@ -70,8 +70,15 @@ impl<'a> Gen<'a> {
     }
 
     fn rvalue(&mut self) -> String {
-        let n = if self.defined.is_empty() { 15 } else { 16 };
+        let n = if self.defined.is_empty() { 21 } else { 22 };
         match self.rng.below(n) {
+            // reads in operand / element / named-argument positions
+            15 => format!("!({} == {})", self.path(), self.lit()),
+            16 => format!("-(to_int({}) ?? 1)", { let p = self.path(); self.any(p) }),
+            17 => format!("(1 + (to_int({}) ?? 0))", { let p = self.path(); self.any(p) }),
+            18 => format!("[{}, {}, {}]", self.lit(), self.lit(), self.path()),
+            19 => format!("{{\"x\": {}, \"y\": {}}}.y", self.lit(), self.path()),
+            20 => format!("upcase(value: string({}) ?? \"d\")", { let p = self.path(); self.any(p) }),
             // queries whose target is a container or a function call that itself reads the event
             12 => format!("{{\"k\": {}, \"l\": {}}}.k", self.path(), self.path()),
             13 => format!("[{}, {}][1]", self.path(), self.path()),
@@ -336,7 +343,10 @@ impl<'a> Gen<'a> {
         for v in self.defined.clone() {
             lines.push(format!(".out_{v} = {v}"));
         }
-        lines.push(".".to_string());
+        // usually the program ends by returning the event; sometimes its last statement is whatever came last
+        if self.rng.chance(0.75) {
+            lines.push(".".to_string());
+        }
         lines.join("\n") + "\n"
     }
 }
@@ -404,7 +414,7 @@ pub fn event(rng: &mut Rng) -> EventSpec {
 /// Candidate read-only entries (C15 knob): paths the vocabulary mentions and their neighbours.
 pub const RO_CANDIDATES: &[&str] = &[
     ".a", ".b", ".a.b", ".a.c", ".a.b.c", ".arr", ".arr[0]", ".arr[1]", ".arr[2]", ".arr[-1]", ".\"k k\"", ".o", ".o.p", ".o.p.q", "%m", "%m.n",
-    "%arr", "%arr[0]", "%arr[1]", ".out_x", ".arr[2].x", ".z", "%m.arr", ".a.z",
+    "%arr", "%arr[0]", "%arr[1]", ".out_x", ".arr[2].x", ".z", "%m.arr", ".a.z", ".\"a.b\"", ".ab", ".a_b", ".a.\"0\"", "%a", "%m.\"x y\"",
 ];
 
 pub fn read_only_set(rng: &mut Rng) -> Vec<(String, bool)> {
